@@ -752,6 +752,391 @@ fn show_bootargs(dump: &Dump) -> String {
     }
 }
 
+// ------------------------------------------------- canonical output, third group (`readMore`)
+
+/// strict UTF-16 decoding of the units before the first NUL (`std`, not `encoding_rs`)
+fn utf16_prefix(data: &[u16]) -> Option<String> {
+    let n = data.iter().position(|c| *c == 0).unwrap_or(data.len());
+    String::from_utf16(&data[..n]).ok()
+}
+
+/// `misc:` — the revision read, the sixteen scalar accessors, the time zone, the two build strings and
+/// the enabled XSTATE features, all through the public accessors; the strings are additionally looked
+/// up in the printer's text (`print` decodes them with its own `utf16_to_string`)
+fn show_misc(dump: &Dump) -> String {
+    let m = match dump.get_stream::<MinidumpMiscInfo>() {
+        Err(e) => return err_name(&e),
+        Ok(m) => m,
+    };
+    let mut text = meter::unmetered(|| Vec::with_capacity(16 * 1024));
+    let _ = m.print(&mut text);
+    let _ = m.process_create_time();
+    meter::unmetered(|| {
+        let text = String::from_utf8_lossy(&text);
+        let r = &m.raw;
+        let ver = match r {
+            RawMiscInfo::MiscInfo(_) => 1,
+            RawMiscInfo::MiscInfo2(_) => 2,
+            RawMiscInfo::MiscInfo3(_) => 3,
+            RawMiscInfo::MiscInfo4(_) => 4,
+            RawMiscInfo::MiscInfo5(_) => 5,
+        };
+        let simple: Vec<Option<u32>> = vec![
+            r.size_of_info().copied(),
+            r.flags1().copied(),
+            r.process_id().copied(),
+            r.process_create_time().copied(),
+            r.process_user_time().copied(),
+            r.process_kernel_time().copied(),
+            r.processor_max_mhz().copied(),
+            r.processor_current_mhz().copied(),
+            r.processor_mhz_limit().copied(),
+            r.processor_max_idle_state().copied(),
+            r.processor_current_idle_state().copied(),
+            r.process_integrity_level().copied(),
+            r.process_execute_flags().copied(),
+            r.protected_process().copied(),
+            r.time_zone_id().copied(),
+            r.process_cookie().copied(),
+        ];
+        let simple: Vec<String> = simple.iter().map(|v| v.map(|x| x.to_string()).unwrap_or_else(|| "-".into())).collect();
+        let mut bad = false;
+        let mut in_text = |label: &str, v: &Option<String>| {
+            let line = format!("{label}{}\n", v.clone().unwrap_or_else(|| "(invalid)".into()));
+            if !text.contains(&line) {
+                bad = true;
+            }
+        };
+        let date = |d: &md::SYSTEMTIME| {
+            [d.year, d.month, d.day_of_week, d.day, d.hour, d.minute, d.second, d.milliseconds].iter().map(|x| x.to_string()).collect::<Vec<_>>().join(".")
+        };
+        let tz = match r.time_zone() {
+            None => "-".to_string(),
+            Some(t) => {
+                let (sn, dn) = (utf16_prefix(&t.standard_name), utf16_prefix(&t.daylight_name));
+                in_text("    standard_name = ", &sn);
+                in_text("    daylight_name = ", &dn);
+                format!(
+                    "={}:{}:{}:{}:{}:{}:{}",
+                    t.bias as u32,
+                    opt_name(&sn),
+                    date(&t.standard_date),
+                    t.standard_bias as u32,
+                    opt_name(&dn),
+                    date(&t.daylight_date),
+                    t.daylight_bias as u32
+                )
+            }
+        };
+        let bs = r.build_string().and_then(|s| utf16_prefix(&s[..]));
+        let dbs = r.dbg_bld_str().and_then(|s| utf16_prefix(&s[..]));
+        in_text("  build_string                 = ", &bs);
+        in_text("  dbg_bld_str                  = ", &dbs);
+        let xs = match r.xstate_data() {
+            None => "-".to_string(),
+            Some(x) => {
+                let fs: Vec<String> = x.iter().map(|(i, f)| format!("{}:{}:{}", i, f.offset, f.size)).collect();
+                for (i, f) in x.iter() {
+                    if !text.contains(&format!("    feature {i:2} - ")) || !text.contains(&format!(":  offset {:4}, size {:4}\n", f.offset, f.size)) {
+                        bad = true;
+                    }
+                }
+                format!("={}", fs.join(","))
+            }
+        };
+        if bad {
+            return "MISMATCH:print-text".to_string();
+        }
+        format!("ok {}/{}/tz{}/bs{}/dbs{}/xs{}", ver, simple.join(","), tz, opt_name(&bs), opt_name(&dbs), xs)
+    })
+}
+
+/// the three panic sites of procfs-core 0.17's maps parser (src/process/mod.rs), by line number
+fn maps_panic_class(site: &str) -> &'static str {
+    if !site.contains("procfs-core") {
+        "other"
+    } else if site.contains("process/mod.rs:473:") {
+        "stack"
+    } else if site.contains("process/mod.rs:478:") {
+        "sysv"
+    } else if site.contains("process/mod.rs:538:") {
+        "smaps"
+    } else {
+        "other"
+    }
+}
+
+/// `maps:` — every entry of `MinidumpLinuxMaps` (addresses, permission bits, offset, device, inode, path
+/// kind) and `memory_info_at_address` at both ends of every entry and next to them
+fn show_maps(dump: &Dump) -> String {
+    use procfs_core::process::MMapPath as P;
+    use std::os::unix::ffi::OsStrExt;
+    let maps = match dump.get_stream::<MinidumpLinuxMaps>() {
+        Err(e) => return err_name(&e),
+        Ok(m) => m,
+    };
+    let mut probes: Vec<(u64, Option<usize>)> = meter::unmetered(Vec::new);
+    let ends: Vec<(u64, u64)> = meter::unmetered(|| maps.iter().map(|r| r.map.address).collect());
+    let first = maps.iter().next().map(|r| r as *const MinidumpLinuxMapInfo);
+    for (lo, hi) in ends {
+        let mut addrs = [None; 4];
+        if lo > 0 {
+            addrs[0] = Some(lo - 1);
+        }
+        addrs[1] = Some(lo);
+        addrs[2] = Some(hi);
+        if hi < u64::MAX {
+            addrs[3] = Some(hi + 1);
+        }
+        for a in addrs.into_iter().flatten() {
+            let hit = maps.memory_info_at_address(a).map(|h| h as *const MinidumpLinuxMapInfo);
+            // the regions live in one vector: the index is the pointer distance
+            let idx = match (hit, first) {
+                (Some(h), Some(f)) => Some((h as usize - f as usize) / std::mem::size_of::<MinidumpLinuxMapInfo>()),
+                _ => None,
+            };
+            meter::unmetered(|| probes.push((a, idx)));
+        }
+    }
+    meter::unmetered(|| {
+        let mut s = String::from("ok [");
+        for (k, r) in maps.iter().enumerate() {
+            let x = &r.map;
+            if k > 0 {
+                s.push(';');
+            }
+            let path = match &x.pathname {
+                P::Path(p) => format!("p{}", hex(p.as_os_str().as_bytes())),
+                P::Heap => "h".into(),
+                P::Stack => "s".into(),
+                P::TStack(t) => format!("t{t}"),
+                P::Vdso => "d".into(),
+                P::Vvar => "v".into(),
+                P::Vsyscall => "y".into(),
+                P::Rollup => "r".into(),
+                P::Anonymous => "a".into(),
+                P::Vsys(k) => format!("k{}", *k as u32),
+                P::Other(o) => format!("o{}", hex(o.as_bytes())),
+            };
+            let _ = write!(s, "{},{},{},{},{},{},{},{}", x.address.0, x.address.1, x.perms.bits(), x.offset, x.dev.0 as u32, x.dev.1 as u32, x.inode, path);
+        }
+        s.push_str("]|");
+        s.push_str(&show_probes(&probes));
+        s
+    })
+}
+
+/// lookups: in full for up to 160 of them, else their number and a hash (`MdModel.Bytes.showProbes`)
+fn show_probes(ps: &[(u64, Option<usize>)]) -> String {
+    if ps.len() <= 160 {
+        ps.iter()
+            .map(|(a, i)| match i {
+                None => format!("{a}:~"),
+                Some(i) => format!("{a}:{i}"),
+            })
+            .collect::<Vec<_>>()
+            .join(",")
+    } else {
+        let mut h: u64 = 0;
+        for (a, i) in ps {
+            h = (h * 1000003 + (a % 4294967296) + 7 * i.map(|x| x as u64 + 1).unwrap_or(0)) % 4294967296;
+        }
+        format!("#{}:{}", ps.len(), h)
+    }
+}
+
+fn show_indices(is: &[usize]) -> String {
+    if is.len() <= 160 {
+        is.iter().map(|i| i.to_string()).collect::<Vec<_>>().join(",")
+    } else {
+        let mut h: u64 = 0;
+        for i in is {
+            h = (h * 1000003 + *i as u64 + 1) % 4294967296;
+        }
+        format!("#{}:{}", is.len(), h)
+    }
+}
+
+/// `uni:` — `UnifiedMemoryInfoList::new(memory info list, linux maps)`: which one it serves, `iter().count()`,
+/// `by_addr()` and `memory_info_at_address` at both ends of every region (indices = pointer distances)
+fn show_unified(dump: &Dump) -> String {
+    let info = dump.get_stream::<MinidumpMemoryInfoList>().ok();
+    let maps = dump.get_stream::<MinidumpLinuxMaps>().ok();
+    let Some(u) = UnifiedMemoryInfoList::new(info, maps) else { return "-".into() };
+    let mut sink = Sink(0);
+    let _ = u.print(&mut sink);
+    let mut addrs: Vec<u64> = meter::unmetered(|| vec![0, 0x1000, u64::MAX]);
+    let (kind, first, stride): (&str, usize, usize) = match (u.info(), u.maps()) {
+        (Some(l), _) => {
+            meter::unmetered(|| {
+                for r in l.iter() {
+                    let (b, z) = (r.raw.base_address, r.raw.region_size);
+                    if b > 0 {
+                        addrs.push(b - 1);
+                    }
+                    addrs.push(b);
+                    if z > 0 {
+                        if let Some(e) = b.checked_add(z - 1) {
+                            addrs.push(e);
+                        }
+                    }
+                    if let Some(e) = b.checked_add(z) {
+                        addrs.push(e);
+                    }
+                }
+            });
+            ("info", l.iter().next().map(|r| r as *const MinidumpMemoryInfo as usize).unwrap_or(0), std::mem::size_of::<MinidumpMemoryInfo>())
+        }
+        (None, Some(l)) => {
+            meter::unmetered(|| {
+                for r in l.iter() {
+                    let (lo, hi) = r.map.address;
+                    if lo > 0 {
+                        addrs.push(lo - 1);
+                    }
+                    addrs.push(lo);
+                    addrs.push(hi);
+                    if hi < u64::MAX {
+                        addrs.push(hi + 1);
+                    }
+                }
+            });
+            ("maps", l.iter().next().map(|r| r as *const MinidumpLinuxMapInfo as usize).unwrap_or(0), std::mem::size_of::<MinidumpLinuxMapInfo>())
+        }
+        (None, None) => return "MISMATCH:unified-empty".into(),
+    };
+    let idx_of = |x: UnifiedMemoryInfo| -> usize {
+        let p = match x {
+            UnifiedMemoryInfo::Info(r) => r as *const MinidumpMemoryInfo as usize,
+            UnifiedMemoryInfo::Map(r) => r as *const MinidumpLinuxMapInfo as usize,
+        };
+        (p - first) / stride
+    };
+    let count = u.iter().count();
+    let mut by_addr: Vec<usize> = meter::unmetered(Vec::new);
+    for x in u.by_addr() {
+        let i = idx_of(x);
+        meter::unmetered(|| by_addr.push(i));
+    }
+    let mut probes: Vec<(u64, Option<usize>)> = meter::unmetered(|| Vec::with_capacity(addrs.len()));
+    for a in &addrs {
+        let hit = u.memory_info_at_address(*a).map(idx_of);
+        probes.push((*a, hit));
+    }
+    meter::unmetered(|| format!("{}/{}/[{}]/{}", kind, count, show_indices(&by_addr), show_probes(&probes)))
+}
+
+fn show_os_parts(dump: &Dump) -> String {
+    let Ok(s) = dump.get_stream::<MinidumpSystemInfo>() else { return "-".into() };
+    let (v, b) = s.os_parts();
+    meter::unmetered(|| format!("{}/{}", name_hex(&v), opt_name(&b)))
+}
+
+/// `ids:` — per module the four identifier accessors and the number of bytes `print` renders as hex
+fn show_module_ids(dump: &Dump) -> String {
+    let Ok(l) = dump.get_stream::<MinidumpModuleList>() else { return "-".into() };
+    let mut out = meter::unmetered(|| String::from("ok["));
+    for m in l.iter() {
+        let dbg = m.debug_identifier().map(|d| d.breakpad().to_string());
+        let code = m.code_identifier().map(|c| c.to_string());
+        let file = m.debug_file().map(|f| f.into_owned());
+        let ver = m.version().map(|v| v.into_owned());
+        let mut text = meter::unmetered(|| Vec::with_capacity(4096));
+        let _ = m.print(&mut text);
+        meter::unmetered(|| {
+            let o = |s: &Option<String>| match s {
+                None => "-".to_string(),
+                Some(s) => format!("={s}"),
+            };
+            let hexed: Option<&[u8]> = match &m.codeview_info {
+                Some(CodeView::Elf(r)) => Some(&r.build_id),
+                Some(CodeView::Unknown(b)) => Some(b),
+                _ => None,
+            };
+            let n = hexed.map(|b| b.len()).unwrap_or(0);
+            if let Some(b) = hexed {
+                let text = String::from_utf8_lossy(&text);
+                let hx = if b.is_empty() { String::new() } else { hex(b) };
+                if !text.contains(&format!("= {hx}\n")) {
+                    out.push_str("MISMATCH:print-hex;");
+                }
+            }
+            let _ = write!(out, "{}/{}/{}/{}/{};", o(&dbg), o(&code), opt_name(&file), o(&ver), n);
+        });
+    }
+    out.push(']');
+    out
+}
+
+fn show_unloaded_ids(dump: &Dump) -> String {
+    let Ok(l) = dump.get_stream::<MinidumpUnloadedModuleList>() else { return "-".into() };
+    let mut out = meter::unmetered(|| String::from("ok["));
+    for m in l.iter() {
+        if m.debug_file().is_some() || m.debug_identifier().is_some() || m.version().is_some() {
+            return "MISMATCH:unloaded-accessor".into();
+        }
+        let code = m.code_identifier().map(|c| c.to_string()).unwrap_or_else(|| "?".into());
+        meter::unmetered(|| {
+            out.push_str(&code);
+            out.push(';');
+        });
+    }
+    out.push(']');
+    out
+}
+
+fn show_soft(dump: &Dump) -> String {
+    match dump.get_stream::<MinidumpSoftErrors>() {
+        Err(e) => err_name(&e),
+        Ok(s) => format!("ok {}", s.as_ref().len()),
+    }
+}
+
+/// the register accessors of one context: `valid_registers()`, `get_register` of every general-purpose
+/// register, `register_size()`, `format_register` of the first and the last general-purpose register
+fn show_regs_of(c: Option<std::borrow::Cow<MinidumpContext>>) -> String {
+    let Some(c) = c else { return "-".into() };
+    let (kind, _, _) = ctx_kind(&c);
+    let valid: Vec<(&'static str, u64)> = c.valid_registers().collect();
+    let names = c.general_purpose_registers();
+    let got: Vec<Option<u64>> = names.iter().map(|n| c.get_register(n)).collect();
+    let mut fmt = Vec::new();
+    if let (Some(a), Some(b)) = (names.first(), names.last()) {
+        fmt.push(c.format_register(a));
+        fmt.push(c.format_register(b));
+    }
+    let size = c.register_size();
+    meter::unmetered(|| {
+        format!(
+            "{}:{}|{}|{}|{}",
+            kind,
+            valid.iter().map(|(n, v)| format!("{n}={v:x}")).collect::<Vec<_>>().join(","),
+            got.iter().map(|v| v.map(|x| format!("{x:x}")).unwrap_or_else(|| "none".into())).collect::<Vec<_>>().join(","),
+            size,
+            fmt.join(",")
+        )
+    })
+}
+
+fn show_regs(dump: &Dump) -> String {
+    let (Ok(l), Ok(sys)) = (dump.get_stream::<MinidumpThreadList>(), dump.get_stream::<MinidumpSystemInfo>()) else { return "-".into() };
+    let mut out = meter::unmetered(|| String::from("ok["));
+    for t in &l.threads {
+        let r = show_regs_of(t.context(&sys, None));
+        meter::unmetered(|| {
+            out.push_str(&r);
+            out.push(';');
+        });
+    }
+    out.push(']');
+    out
+}
+
+fn show_exc_regs(dump: &Dump) -> String {
+    let (Ok(x), Ok(sys)) = (dump.get_stream::<MinidumpException>(), dump.get_stream::<MinidumpSystemInfo>()) else { return "-".into() };
+    show_regs_of(x.context(&sys, None))
+}
+
 // ------------------------------------------------------------------------------ phase B (sweep)
 
 fn sweep(dump: &Dump, o: &mut Out) {
@@ -1098,6 +1483,22 @@ fn run_case(all: &[u8], shared: &Arc<meter::Shared>) -> CaseOut {
                             // apart here; the generator's TEB-region cases cover it
                         }
                     }
+                    if (tag == "regs" || tag == "xregs") && s != "-" {
+                        for k in ["X86:", "Amd64:", "Ppc:", "Ppc64:", "Sparc:", "Arm:", "Arm64:", "OldArm64:", "Mips:"] {
+                            if s.contains(&format!("[{k}")) || s.contains(&format!(";{k}")) || s.starts_with(k) {
+                                o.tags.push(format!("{tag}-ctx={}", k.trim_end_matches(':')));
+                            }
+                        }
+                    }
+                    if tag == "uni" && s != "-" {
+                        o.tags.push(format!("uni={}", s.split('/').next().unwrap_or("").replace(':', "-")));
+                    }
+                    if tag == "osp" && s != "-" {
+                        o.tags.push(format!("osp={}", if s.ends_with("/-") { "no-build" } else { "build" }));
+                    }
+                    if tag == "maps" && s.starts_with("PANIC:") {
+                        o.tags.push(format!("maps={}", s.replace(':', "-")));
+                    }
                     if class != "err StreamNotFound" && class != "other" {
                         present += 1;
                         o.tags.push(format!("{tag}={}", class.replace(' ', "-")));
@@ -1122,6 +1523,25 @@ fn run_case(all: &[u8], shared: &Arc<meter::Shared>) -> CaseOut {
             addx(&mut o, "asrt", "get_stream::<MinidumpAssertion> + accessors", &|| show_assertion(&dump));
             addx(&mut o, "mac", "get_stream::<MinidumpMacCrashInfo> + print", &|| show_mac(&dump));
             addx(&mut o, "boot", "get_stream::<MinidumpMacBootargs>", &|| show_bootargs(&dump));
+            // third group (`MdModel.DumpFull.readMore`)
+            addx(&mut o, "misc", "get_stream::<MinidumpMiscInfo> + accessors + print", &|| show_misc(&dump));
+            // the Linux-maps reader can panic (known finding): the group then names the panic site's class
+            let maps_s = match o.guard("get_stream::<MinidumpLinuxMaps> + memory_info_at_address", || show_maps(&dump)) {
+                Some(s) => s,
+                None => format!("PANIC:{}", maps_panic_class(&LAST_PANIC.with(|p| p.borrow().clone()))),
+            };
+            addx(&mut o, "maps", "-", &|| maps_s.clone());
+            let uni_s = match o.guard("UnifiedMemoryInfoList::{new, iter, by_addr, memory_info_at_address, print}", || show_unified(&dump)) {
+                Some(s) => s,
+                None => format!("PANIC:{}", maps_panic_class(&LAST_PANIC.with(|p| p.borrow().clone()))),
+            };
+            addx(&mut o, "uni", "-", &|| uni_s.clone());
+            addx(&mut o, "osp", "MinidumpSystemInfo::os_parts", &|| show_os_parts(&dump));
+            addx(&mut o, "ids", "MinidumpModule::{debug_identifier, code_identifier, debug_file, version, print}", &|| show_module_ids(&dump));
+            addx(&mut o, "uids", "MinidumpUnloadedModule::code_identifier", &|| show_unloaded_ids(&dump));
+            addx(&mut o, "soft", "get_stream::<MinidumpSoftErrors>", &|| show_soft(&dump));
+            addx(&mut o, "regs", "MinidumpContext::{valid_registers, get_register, format_register, register_size} (threads)", &|| show_regs(&dump));
+            addx(&mut o, "xregs", "MinidumpContext::{valid_registers, get_register, format_register, register_size} (exception)", &|| show_exc_regs(&dump));
             let gm = o
                 .guard("get_memory", || match dump.get_memory() {
                     Some(UnifiedMemoryList::Memory64(_)) => "mem64",
@@ -1560,6 +1980,12 @@ fn maps_text(rng: &mut Rng) -> Vec<u8> {
         for i in 0..rng.below(3) {
             out.push_str(&format!("{:08x}-{:08x} rw-p 00000000 00:00 0 [heap]\n", 0x10000 * (i + 1), 0x10000 * (i + 1) + 0x1000));
         }
+        // well-formed entries whose address pair is a boundary of `memory_range()` / the lookup table: both ends 0,
+        // the whole address space, one byte, start above end, the top of the address space
+        if rng.chance(1, 2) {
+            let (lo, hi) = *rng.pick(&[(0u64, 0u64), (0, u64::MAX), (0x5000, 0x5000), (0x5001, 0x5000), (u64::MAX, u64::MAX), (u64::MAX - 1, u64::MAX), (0, 1)]);
+            out.push_str(&format!("{:x}-{:x} r--p 00000000 00:00 0 {}\n", lo, hi, rng.pick(&["", "[vdso]", "/lib/y.so"])));
+        }
         let path = *rng.pick(&[
             "/SYSV00000000 (deleted)", "/SYSV12", "/SYSV", "/SYSV1234567\u{e9}", "/SYSVzzzzzzzz", "[stack:12]", "[stack:", "[stack:7\u{e9}",
             "[stack:x]", "[anon:\u{e9}]", "[", "[\u{e9}", "/usr/lib/libc.so.6", "[stack:\u{e9}]",
@@ -1567,6 +1993,21 @@ fn maps_text(rng: &mut Rng) -> Vec<u8> {
         out.push_str(&format!("00400000-0040b000 r-xp 00000000 08:01 {} {}\n", rng.below(1 << 20), path));
         if rng.chance(1, 2) {
             out.push_str(*rng.pick(&["Rss: 4 kB\n", "Size: 18446744073709551615 kB\n", "Rss: 18014398509481984 kB\n", "VmFlags: rd ex mr\n", "Rss: x kB\n", "Rss:\n", "Pss: 18014398509481983 kB\n"]));
+        }
+        return out.into_bytes();
+    }
+    if rng.chance(1, 4) {
+        // an smaps-style text: benign entries, each followed by attribute lines — among them the shapes around the
+        // `v * 1024` overflow (2^54 kB overflows, 2^54 - 1 does not; no suffix = no multiplication; `VmFlags…` is exempt)
+        for i in 0..1 + rng.below(3) {
+            out.push_str(&format!("{:08x}-{:08x} rw-p 00000000 00:00 0 {}\n", 0x10000 * (i + 1), 0x10000 * (i + 1) + 0x1000, rng.pick(&["[heap]", "", "/lib/x.so", "[stack:12]", "/SYSV00000000 (deleted)"])));
+            for _ in 0..rng.below(4) {
+                out.push_str(*rng.pick(&[
+                    "Rss: 4 kB\n", "Size: 18446744073709551615 kB\n", "Rss: 18014398509481984 kB\n", "Pss: 18014398509481983 kB\n", "VmFlags: rd ex mr\n",
+                    "VmFlagsX 18014398509481984 kB\n", "Rss: 18014398509481984\n", "Rss:\t18014398509481984\tkB extra\n", "Rss: +18014398509481984 kB\n", "Rss: x kB\n", "Rss:\n",
+                    "THPeligible:    0\n", "Name 18446744073709551616 kB\n",
+                ]));
+            }
         }
         return out.into_bytes();
     }
@@ -1654,6 +2095,261 @@ impl W {
         }
         at
     }
+}
+
+/// A raw MISC_INFO stream of `size` bytes: `flags1` as given, the UTF-16 arrays filled per `units`
+/// (0 = plain text with a terminator somewhere, 1 = no NUL at all, 2 = lone surrogates, 3 = all NUL,
+/// 4 = random mix), `xstate_data.enabled_features` = `enabled`.
+fn misc_blob(rng: &mut Rng, be: bool, size: usize, flags: u32, units: u32, enabled: u64) -> Vec<u8> {
+    let mut w = W { buf: Vec::new(), be };
+    let mut k = 0u32;
+    while w.buf.len() + 2 <= size + 2 {
+        let u: u16 = match units {
+            0 => if k % 29 == 17 { 0 } else { 0x41 + (k % 26) as u16 },
+            1 => 0x61 + (k % 26) as u16,
+            2 => match k % 5 { 0 => 0xd800, 1 => 0x41, 2 => 0xdc00, 3 => 0xd83d, _ => 0xde00 },
+            3 => 0,
+            _ => match rng.below(10) { 0 => 0, 1 => 0xd800, 2 => 0xdc00, 3 => 0xfffe, _ => (0x20 + rng.below(0x60)) as u16 },
+        };
+        if be { w.buf.extend_from_slice(&u.to_be_bytes()) } else { w.buf.extend_from_slice(&u.to_le_bytes()) }
+        k += 1;
+    }
+    w.buf.truncate(size);
+    if size >= 8 {
+        w.put32(0, size as u32);
+        w.put32(4, flags);
+    }
+    // the scalar fields between the header and the time zone: small numbers
+    let mut at = 8;
+    while at + 4 <= size.min(60) {
+        w.put32(at, rng.below(5000) as u32);
+        at += 4;
+    }
+    if size >= 848 {
+        let b = if be { enabled.to_be_bytes() } else { enabled.to_le_bytes() };
+        w.buf[840..848].copy_from_slice(&b);
+    }
+    w.buf
+}
+
+/// A CodeView record blob of the given kind, cut / padded / with hostile file names:
+/// `kind` 0 = PDB 7.0 (`RSDS`), 1 = PDB 2.0 (`NB10`), 2 = ELF build id (`BpEL`), 3 = unknown signature.
+fn cv_blob(rng: &mut Rng, be: bool, kind: u32) -> Vec<u8> {
+    let mut w = W { buf: Vec::new(), be };
+    let names: [&[u8]; 14] = [
+        b"app.pdb\0",
+        b"app.pdb",
+        b"",
+        b"\0",
+        b"a\0b\0",
+        b"\xff\xfe.pdb\0",
+        b"caf\xc3\xa9.pdb\0",
+        b"cut\xc3",
+        b"\xc0\x80overlong\0",
+        b"\xed\xa0\x80surrogate\0",
+        b"\xf0\x9f\x98\x80ok\0",
+        b"\xf0\x9f\x98",
+        b"\xe2\x82x\xf4\x90\x80\x80y\x80\0",
+        b"line\nbreak\r\n\0",
+    ];
+    match kind {
+        0 => {
+            w.u32(0x5344_5352);
+            // GUID: nil, all ones, random
+            match rng.below(4) {
+                0 => w.buf.extend_from_slice(&[0; 16]),
+                1 => w.buf.extend_from_slice(&[0xff; 16]),
+                _ => {
+                    w.u32(rng.next() as u32);
+                    let (a, b) = (rng.next() as u16, rng.next() as u16);
+                    if be {
+                        w.buf.extend_from_slice(&a.to_be_bytes());
+                        w.buf.extend_from_slice(&b.to_be_bytes());
+                    } else {
+                        w.buf.extend_from_slice(&a.to_le_bytes());
+                        w.buf.extend_from_slice(&b.to_le_bytes());
+                    }
+                    for _ in 0..8 {
+                        w.buf.push(rng.next() as u8);
+                    }
+                }
+            }
+            w.u32(*rng.pick(&[0u32, 1, 0xa, u32::MAX, 0x1234_5678]));
+            w.buf.extend_from_slice(*rng.pick(&names[..]));
+        }
+        1 => {
+            w.u32(0x3031_424e);
+            w.u32(rng.below(3) as u32);
+            w.u32(*rng.pick(&[0u32, 0x4b3f_2a1d, u32::MAX]));
+            w.u32(*rng.pick(&[0u32, 1, 0xabc, u32::MAX]));
+            w.buf.extend_from_slice(*rng.pick(&names[..]));
+        }
+        2 => {
+            w.u32(0x4270_454c);
+            let n = *rng.pick(&[0usize, 1, 3, 8, 15, 16, 17, 20, 32, 64]);
+            let zero = rng.chance(1, 4);
+            for k in 0..n {
+                w.buf.push(if zero || (rng.chance(1, 6) && k < 16) { 0 } else { rng.next() as u8 });
+            }
+        }
+        _ => {
+            let r = rng.next() as u32;
+            w.u32(*rng.pick(&[0u32, 0x5344_5353, 0x3031_424d, u32::MAX, r]));
+            for _ in 0..rng.below(40) {
+                w.buf.push(rng.next() as u8);
+            }
+        }
+    }
+    // cut anywhere now and then (a record shorter than its fixed part, a GUID / age cut in the middle)
+    if rng.chance(1, 3) {
+        let k = rng.below(w.buf.len() as u64 + 1) as usize;
+        w.buf.truncate(k);
+    }
+    w.buf
+}
+
+/// Directed: the records the identifier accessors, `os_parts`, `UnifiedMemoryInfoList` and the soft-errors
+/// reader work on — a system info of a chosen platform / version / CSD text, a module list whose CodeView
+/// records are `cv_blob`s, an unloaded-module list, a memory-info list with empty / huge / overlapping /
+/// wrapping regions, optionally Linux maps, optionally a soft-errors stream (UTF-8 or not).
+fn ids_dump(rng: &mut Rng, be: bool, idx: usize) -> Vec<u8> {
+    let mut w = start_dump(be);
+    let mut dir: Vec<(u32, u32, u32)> = Vec::new();
+    let csds = [
+        "Linux 5.4.0-42-generic #46-Ubuntu SMP Fri Jul 10 00:24:02 UTC 2020 x86_64 Linux/GNU",
+        "Linux 5.4.0-42-generic #46-Ubuntu SMP x86_64",
+        "Linux 4.9.0 Linux/GNU",
+        "Linux 0.0.0 #1 x86_64 Linux/GNU",
+        "Linux",
+        "Linux ",
+        "Linux  x  Linux/GNU",
+        "Linux 6.1 Linux/GNU Linux/GNU",
+        "Linux/GNU",
+        "",
+        " ",
+        "\u{2003}Service Pack 1\u{a0}",
+        "\t\n 19H2 \u{3000}",
+        "a b",
+    ];
+    let s_csd = w.utf16(csds[idx % csds.len()]);
+    let s_name = w.utf16(*rng.pick(&["libxul.so", "C:\\w\\app.exe", "", "caf\u{e9}\u{1F600}", "/SYSV00000000 (deleted)"]));
+    // CodeView blobs
+    let mut cvs = Vec::new();
+    for k in 0..3u32 {
+        let blob = cv_blob(rng, be, (idx as u32 / 2 + k) % 4);
+        let at = w.here();
+        w.buf.extend_from_slice(&blob);
+        cvs.push((blob.len() as u32, at));
+    }
+    // system info
+    if idx % 9 != 8 {
+        let at = w.here();
+        let put16 = |w: &mut W, v: u16| {
+            if w.be {
+                w.buf.extend_from_slice(&v.to_be_bytes())
+            } else {
+                w.buf.extend_from_slice(&v.to_le_bytes())
+            }
+        };
+        put16(&mut w, *rng.pick(&[0u16, 9, 12, 5]));
+        put16(&mut w, 6);
+        put16(&mut w, 0x0d08);
+        w.buf.push(2);
+        w.buf.push(1);
+        let zero_ver = idx % 3 != 2;
+        w.u32(if zero_ver { 0 } else { *rng.pick(&[10u32, 0, u32::MAX]) });
+        w.u32(if zero_ver { 0 } else { rng.below(3) as u32 });
+        w.u32(if zero_ver { 0 } else { *rng.pick(&[19041u32, 0, 1]) });
+        w.u32([0x8201u32, 0x8201, 2, 0x8101, 0x8203, 0x8102, 0x7fff_ffff][idx % 7]);
+        w.u32(*rng.pick(&[s_csd, s_csd, s_csd, s_csd, 0, u32::MAX]));
+        put16(&mut w, 0);
+        put16(&mut w, 0);
+        w.buf.extend_from_slice(b"GenuineIntel\x01\x02\x03\x04\x05\x06\x07\x08\x09\x0a\x0b\x0c");
+        dir.push((7, w.here() - at, at));
+    }
+    // module list
+    {
+        let at = w.here();
+        w.u32(cvs.len() as u32);
+        for (k, (sz, rva)) in cvs.iter().enumerate() {
+            w.u64(0x40_0000 + 0x10_0000 * k as u64);
+            w.u32(0x8000);
+            w.u32(0);
+            w.u32(*rng.pick(&[0x4b3f_2a1du32, 0, u32::MAX]));
+            w.u32(s_name);
+            // VS_FIXEDFILEINFO: a real signature / struct version most of the time
+            let good = rng.chance(3, 4);
+            w.u32(if good { 0xfeef_04bd } else { rng.next() as u32 });
+            w.u32(if good { 0x0001_0000 } else { 0 });
+            for _ in 0..11 {
+                w.u32(*rng.pick(&[0u32, 1, 0x0005_0002, 0xffff_ffff, 0x0001_0000]));
+            }
+            // cv_record: the blob, one byte more / less, or absent
+            let dsz = match rng.below(8) {
+                0 => sz.wrapping_sub(1),
+                1 => sz + 1,
+                2 => 0,
+                _ => *sz,
+            };
+            w.u32(dsz);
+            w.u32(*rva);
+            w.u32(0);
+            w.u32(0);
+            w.u64(0);
+            w.u64(0);
+        }
+        dir.push((4, w.here() - at, at));
+    }
+    // unloaded modules
+    if idx % 2 == 0 {
+        let at = w.here();
+        w.u32(12);
+        w.u32(24);
+        w.u32(2);
+        for k in 0..2u64 {
+            w.u64(0x7000_0000 + 0x1_0000 * k);
+            w.u32(*rng.pick(&[0x1000u32, 1, u32::MAX]));
+            w.u32(0);
+            w.u32(*rng.pick(&[0u32, 0x5f00_0000, u32::MAX]));
+            w.u32(s_name);
+        }
+        dir.push((14, w.here() - at, at));
+    }
+    // memory info list: empty, huge, overlapping, identical, wrapping regions
+    if idx % 4 != 3 {
+        let at = w.here();
+        let n = 1 + rng.below(6) as u32;
+        w.u32(16);
+        w.u32(48);
+        w.u64(n as u64);
+        for _ in 0..n {
+            let base = *rng.pick(&[0u64, 0x1000, 0x2000, 0x2800, u64::MAX - 0xfff, u64::MAX, 0x7fff_0000_0000]);
+            let size = *rng.pick(&[0u64, 1, 0x1000, 0x1000, 0x1800, u64::MAX, 0x1_0000_0000]);
+            w.u64(base);
+            w.u64(base);
+            w.u32(4);
+            w.u32(0);
+            w.u64(size);
+            w.u32(0x1000);
+            w.u32(*rng.pick(&[0x04u32, 0x20, 0x40, 0x01, 0]));
+            w.u32(0x2_0000);
+            w.u32(0);
+        }
+        dir.push((16, w.here() - at, at));
+    }
+    if idx % 4 >= 2 {
+        let t = maps_text(rng);
+        let at = w.here();
+        w.buf.extend_from_slice(&t);
+        dir.push((0x4767_0009, t.len() as u32, at));
+    }
+    if idx % 3 == 0 {
+        let t: &[u8] = *rng.pick(&[&b"[]"[..], b"[{\"error\": \"x\"}]", b"", b"\xff\xfe", b"caf\xc3\xa9", b"cut\xc3", b"\xed\xa0\x80"]);
+        let at = w.here();
+        w.buf.extend_from_slice(t);
+        dir.push((0x4d7a_0004, t.len() as u32, at));
+    }
+    finish_dump(w, &dir)
 }
 
 fn crafted_dump(rng: &mut Rng, be: bool, idx: usize) -> Vec<u8> {
@@ -1954,6 +2650,28 @@ fn crafted_dump(rng: &mut Rng, be: bool, idx: usize) -> Vec<u8> {
         w.u32(42);
         w.u32(rng.below(4) as u32);
         dir.push((0x4767_0002, w.here() - at, at));
+    }
+    // a raw MISC_INFO stream: every revision's size, one byte off, between revisions; flag words that
+    // enable everything / nothing / single groups; fixed UTF-16 arrays without terminator or with lone
+    // surrogates; every XSTATE feature enabled
+    if rng.chance(1, 2) {
+        let base = *rng.pick(&[24usize, 44, 232, 832, 1364]);
+        let size = match rng.below(8) {
+            0 => base - 1,
+            1 => base + 1,
+            2 => base + 7,
+            3 => rng.below(1500) as usize,
+            _ => base,
+        };
+        let r32 = rng.next() as u32;
+        let flags = *rng.pick(&[0u32, u32::MAX, 0x3f7, 0x100, 0x40, 0x200, 0x2, r32 & 0x3ff, r32]);
+        let r64 = rng.next();
+        let enabled = *rng.pick(&[0u64, u64::MAX, 1, 1 << 63, (1 << 63) | 1, 1 << 62, 3 << 62, 0x8000_0000_0000_01ff, r64, r64 | (1 << 63)]);
+        let units = rng.below(5) as u32;
+        let blob = misc_blob(rng, be, size, flags, units, enabled);
+        let at = w.here();
+        w.buf.extend_from_slice(&blob);
+        dir.push((15, blob.len() as u32, at));
     }
     if rng.chance(1, 2) {
         // records first, then the header pointing at them. Every record version, string tables that
@@ -2349,7 +3067,13 @@ impl Engine for Read {
          system info (cpu_info text), every thread's and the exception's CPU context (through the accessor and a direct read), stack_memory, last_error x3, the stack / memory dump \
          loops of the printers, crash reason + address, the five text-stream iterators (every key/value as offset+length into the stream), Breakpad / assertion / macOS crash info / boot args; \
          the model's exact allocations must occur among the real allocator's requests. \
-         Oracle-only (not modelled): misc info, linux maps, unified memory info, the text every print emits, the remaining accessors."
+         Round 4 (MdModel.DumpFull.readMore, 11 more groups): misc info (revision, the sixteen scalar accessors, time zone, build strings as decoded by print, enabled XSTATE features), \
+         linux maps (every entry, memory_info_at_address around every entry; a panic of the reader is compared by panic-site class stack / sysv / smaps), UnifiedMemoryInfoList \
+         (which list, iter, by_addr, lookups), os_parts, per module debug_identifier / code_identifier / debug_file / version / the bytes print renders as hex, unloaded modules' \
+         code identifiers, soft errors, and per thread / exception context valid_registers + get_register of every general-purpose register + register_size + format_register; \
+         directed families: MISC_INFO of every revision size x flag word x array contents x enabled_features (all ones / bit 63 / bit 0 / both), CodeView records of every kind cut anywhere \
+         with hostile file names, `uname` texts, memory-info lists with empty / huge / overlapping regions, smaps texts around the v*1024 overflow. \
+         Oracle-only (not modelled): the text every print emits, the remaining accessors."
             .into()
     }
 
@@ -2416,6 +3140,30 @@ impl Engine for Read {
                     emit(case_line(&mac_cut_dump(version, sd, full, nrec, false).0, "directed-mac"));
                 }
             }
+        }
+        // ---- directed: MISC_INFO streams of every revision size (exact, one byte short / long) x flag words
+        // x contents of the fixed UTF-16 arrays x byte order
+        for (bi, base) in [24usize, 44, 232, 832, 1364].into_iter().enumerate() {
+            for delta in [0i64, -1, 1] {
+                for (fi, flags) in [0u32, u32::MAX, 0x3f7].into_iter().enumerate() {
+                    for units in 0..4u32 {
+                        let be = (bi + fi + units as usize) % 2 == 1;
+                        let size = (base as i64 + delta) as usize;
+                        // `enabled_features`: all ones, only bit 63, only bit 0, bits 63 and 0 — the last iterations of `XstateFeatureIter`
+                        let enabled = [u64::MAX, 1 << 63, 1, (1 << 63) | 1][(units as usize + fi) % 4];
+                        let blob = misc_blob(rng, be, size, flags, units, enabled);
+                        let mut w = start_dump(be);
+                        let at = w.here();
+                        w.buf.extend_from_slice(&blob);
+                        emit(case_line(&finish_dump(w, &[(15, blob.len() as u32, at)]), "directed-misc"));
+                    }
+                }
+            }
+        }
+        // ---- directed: CodeView records of every kind (cut, hostile file names, zero / short build ids), Linux
+        // `uname` texts for `os_parts`, memory-info lists for `UnifiedMemoryInfoList`, soft-errors streams
+        for i in 0..(if tier == Tier::Quick { 504 } else { 2016 }) {
+            emit(case_line(&ids_dump(rng, i % 5 == 4, i), "directed-ids"));
         }
         // ---- arbitrary bytes
         for i in 0..300 * scale {
